@@ -155,12 +155,24 @@ def decode_all(dec, tys):
     return ("ok", out)
 
 
-def run_impl(bo, wo, vals, repack=False):
+_REUSED = {}
+
+
+def run_impl(bo, wo, vals, repack=False, reuse=False):
+    """reuse: ONE builder object per (byte order, word order, repack) serves all such cases, emptied with its own
+    reset() before each — what a polling application does; reset() must leave nothing of the previous payload
+    behind (its values, or anything derived from them).  The decoder is likewise rewound with reset() and read again."""
     from pymodbus.payload import BinaryPayloadBuilder, BinaryPayloadDecoder
     tys = [type_of(v) for v in vals]
     obs = {}
     try:
-        b = BinaryPayloadBuilder(byteorder=endian(bo), wordorder=endian(wo), repack=repack)
+        if reuse:
+            b = _REUSED.get((bo, wo, repack))
+            if b is None:
+                b = _REUSED[(bo, wo, repack)] = BinaryPayloadBuilder(byteorder=endian(bo), wordorder=endian(wo), repack=repack)
+            b.reset()
+        else:
+            b = BinaryPayloadBuilder(byteorder=endian(bo), wordorder=endian(wo), repack=repack)
         for v in vals:
             k = v[0]
             if k == "Bits":
@@ -174,7 +186,16 @@ def run_impl(bo, wo, vals, repack=False):
     except Exception as e:  # noqa: BLE001
         x = ("exc", pyexn(e))
         return {"bytes": x, "regs": x, "dec_raw": x, "dec_regs": x, "coils": x, "dec_coils": x}
-    obs["dec_raw"] = decode_all(BinaryPayloadDecoder(s, byteorder=endian(bo), wordorder=endian(wo)), tys)
+    dd = BinaryPayloadDecoder(s, byteorder=endian(bo), wordorder=endian(wo))
+    obs["dec_raw"] = decode_all(dd, tys)
+    if reuse:
+        try:
+            dd.reset()
+            again = decode_all(dd, tys)
+        except Exception as e:  # noqa: BLE001
+            again = ("exc", pyexn(e))
+        if again != obs["dec_raw"]:
+            obs["dec_raw"] = again          # the second reading is what gets judged
     try:
         regs = b.to_registers()
         obs["regs"] = ("ok", [int(r) for r in regs])
@@ -317,14 +338,15 @@ def in_domain(vals):
     return all(v[0] in ("Bits", "Str") or in_range(v[0], v[1]) for v in vals)
 
 
-def payload_case(bo, wo, vals, label=None, repack=False):
-    obs = run_impl(bo, wo, vals, repack=repack)
+def payload_case(bo, wo, vals, label=None, repack=False, reuse=False):
+    obs = run_impl(bo, wo, vals, repack=repack, reuse=reuse)
     dom = in_domain(vals)
     desc = {"byteorder": bo, "wordorder": wo, "repack": repack, "values": [[v[0], v[1]] for v in vals],
-            "impl": {k: list(v) for k, v in obs.items()}}
-    kind = label or ("%s/%s:%s%s" % (bo, wo, "domain" if dom else "malformed", "+repack" if repack else ""))
+            "impl": {k: list(v) for k, v in obs.items()}, "reused_builder": reuse}
+    kind = label or ("%s/%s:%s%s%s" % (bo, wo, "domain" if dom else "malformed", "+repack" if repack else "",
+                                       "+reused" if reuse else ""))
     return Case(case_term(bo, wo, repack, vals, obs), desc, kind=kind, nontrivial=dom and len(vals) > 0,
-                key=(bo, wo, repack, repr(vals)))
+                key=(bo, wo, repack, reuse, repr(vals)))
 
 
 FIXED = [
@@ -357,11 +379,18 @@ def suite_payload(tier):
         for x in xs:
             for bo, wo in ORDERS:
                 cases.append(payload_case(bo, wo, [(k, x)]))
+                cases.append(payload_case(bo, wo, [(k, x)], reuse=True))    # same builder as the previous extreme
     n = 2500 if tier == "quick" else 20000
     for i in range(n):
         vals = gen_sequence(r, malformed=(r.random() < 0.05))
         for bo, wo in ORDERS:
             cases.append(payload_case(bo, wo, vals))
+        if i % 5 == 0 and in_domain(vals):
+            # one builder reused through reset(): the previous payload had as many fields (all of other values), or one more
+            other = [gen_value(r) for _ in vals]
+            for bo, wo in ORDERS:
+                payload_case(bo, wo, other + ([gen_value(r)] if i % 10 == 0 else []), reuse=True)
+                cases.append(payload_case(bo, wo, vals, reuse=True))
     # builder option repack=True (non-default, outside the property): model agreement only
     for i in range(40 if tier == "quick" else 1000):
         vals = gen_sequence(r, malformed=False)
@@ -438,7 +467,13 @@ def replay_case(suite, desc):
     print(json.dumps(desc)[:2000])
     if suite == "payload":
         vals = [tuple(v) for v in desc["values"]]
-        c = payload_case(desc["byteorder"], desc["wordorder"], vals, repack=desc.get("repack", False))
+        reuse = desc.get("reused_builder", False)
+        if reuse:
+            # the builder's previous payload: as many fields of the same types, other values
+            prev = [(k, [1 - b for b in x]) if k == "Bits" else (k, [(c + 1) % 256 for c in x]) if k == "Str"
+                    else (k, x ^ 1) for k, x in vals]
+            payload_case(desc["byteorder"], desc["wordorder"], prev, repack=desc.get("repack", False), reuse=True)
+        c = payload_case(desc["byteorder"], desc["wordorder"], vals, repack=desc.get("repack", False), reuse=reuse)
         res = coqrun.eval_cases("C19_replay", IMPORTS, "chk_payload code", [c.term])
         print("now:", c.desc["impl"], res)
         return bool(res["propfail"] or res["errors"])
